@@ -1,34 +1,33 @@
-"""props.py — per-property configuration of bin/check."""
+"""props.py — per-property configuration of bin/check, loaded from bin/props.d/Cxx.py
+(one file per property, each defining PROP = dict(...))."""
+import glob
+import importlib.util
+import os
+import subprocess
+import sys
 
-COMMON_TRUST = [
-    "Coq 8.16.1 kernel (coqc, full .vo build via coq_makefile; vm_compute used for finite sweeps and witnesses; no native_compute)",
-    "Extraction with ExtrOcamlBasic + ExtrOcamlString only (bool, option, unit, list, prod, sumbool -> OCaml; ascii -> char, string -> char list); N/Z/positive/nat stay Coq datatypes; OCaml 4.13.1 ocamlfind ocamlopt",
-    "correspondence machinery: Go harness (/verif/harness, built with -tags verif against /repo's working tree), S-expression reader oracle/common/sx.ml, per-property oracle main.ml (parsing only; verdicts are extracted Gallina), Python driver bin/check",
-]
+_D = os.path.join(os.path.dirname(os.path.abspath(__file__)), "props.d")
+sys.path.insert(0, _D)
+from common import COMMON_TRUST  # noqa
 
-PROPS = {
-    "C19": dict(
-        properties_files=["C19"],
-        design_ref="DESIGN.md section 10, C19",
-        technique="Coq proof (induction over the component list) that the model of ValidateCalendarObject computes the RFC 4791 4.1 acceptance predicate; model tied to the Go code by an exhaustive+random differential correspondence check against the extracted model",
-        level_text="Machine-checked theorems (Coq 8.16.1, closed under the global context) state acceptance iff the RFC 4791 section 4.1 rules hold, for calendars of every length, and that rejection yields empty results; the Gallina model is hand-written after caldav/caldav.go:25-64 and every run executes the real function on all component sequences up to length 4/5 plus random calendars and compares with the extracted model and specification.",
-        level_note="Trusted: Coq kernel, extraction (ExtrOcamlBasic/ExtrOcamlString), the Go harness and OCaml comparator, go-ical's Props.Text as an input. The theorem is about the model; the tie to the Go source is the per-run correspondence check, exhaustive only up to the stated bound.",
-        stages=[dict(name="validate", harness="c19", oracle="C19")],
-        rule="every sequence of <=4 (quick) / <=5 (thorough) components over {VEVENT,VTODO,VJOURNAL,VFREEBUSY,VTIMEZONE} x UID in {absent,u1,u2,malformed escape} x METHOD present/absent, built through the go-ical API (and, for sequences of <=3 and all random calendars, also re-decoded from go-ical's text encoding), plus seeded random calendars of up to 30 components over more names and UID strings; non-trivial = at least two components; distinct = by digest of the input S-expression",
-        exhaustive=True,
-        exhaustive_universe="all component sequences up to the stated length over 5 names x 4 UID states x METHOD flag",
-        trusted_base=COMMON_TRUST + [
-            "modelled rather than verified: the calendar is abstracted to (METHOD present?, list of (component name, outcome of go-ical Props.Text(UID))); go-ical's accessors and codec are inputs, not modelled",
-        ],
-        assumptions=[
-            "component names are non-empty (names_nonempty; no iCalendar parser yields an empty name; Example ex_empty_name_breaks shows the hypothesis is needed)",
-            "go-ical's Props.Text result for a UID is one of: absent/empty text, a text, an error",
-        ],
-    ),
-}
+PROPS = {}
+for _p in sorted(glob.glob(os.path.join(_D, "C*.py"))):
+    _spec = importlib.util.spec_from_file_location("prop_" + os.path.basename(_p)[:-3], _p)
+    _m = importlib.util.module_from_spec(_spec)
+    _spec.loader.exec_module(_m)
+    PROPS[os.path.basename(_p)[:-3]] = _m.PROP
 
-HOOK_COMMITS = []
+
+def _hook_commits():
+    try:
+        out = subprocess.run(["git", "-C", "/repo", "log", "--format=%H %s"], stdout=subprocess.PIPE, text=True).stdout
+        return [l.split()[0] for l in out.splitlines() if " verif hook:" in l]
+    except Exception:
+        return []
+
+
+HOOK_COMMITS = _hook_commits()
 
 # properties without a check yet (kept current; every one is planned, see DESIGN.md section 12)
-_PENDING = "check not built yet in this session (planned: Coq model + theorem + correspondence check, DESIGN.md section 10); not claimed until it exists"
+_PENDING = "check not built yet (planned: Coq model + theorem + correspondence check, DESIGN.md section 10); not claimed until it exists"
 NOT_APPLICABLE = [dict(property_id="C%02d" % i, reason=_PENDING) for i in range(1, 20) if "C%02d" % i not in PROPS]
